@@ -35,7 +35,7 @@ def run(ctx):
         except (Exception, CaseTimeout) as e:
             return {"error": f"{type(e).__name__}: {e}"[:200]}
 
-    results = [{"np": one(c, aio.as_numpy), "xr": one(c, aio.as_xarray)} for c in cases]
+    cases, results = p3.execute(ctx, cases, cases_file, lambda c: {"np": one(c, aio.as_numpy), "xr": one(c, aio.as_xarray)})
     rf = ctx.scratch / "c15_results.json"
     rf.write_text(json.dumps(results))
     env = {"MARKS_FILE": str(mf)}
